@@ -118,9 +118,15 @@ func init() {
 		12: mk("[-f] [-o]", &ref.Decl{Opts: []ref.OptDecl{fl("f"), vo("o")}}),
 		// a sub-command option spelled like the application's version flag (only below a root that declares Version)
 		13: mk("[-v] [X]", &ref.Decl{Opts: []ref.OptDecl{{Key: "v", Names: []string{"-v", "--version"}, Flag: true}}, Args: []string{"X"}}),
+		// a level whose spec REQUIRES an option and declares no positional: addressing a sub-command without giving the
+		// level its option is a usage error of that level
+		14: mk("-f", &ref.Decl{Opts: []ref.OptDecl{fl("f")}}),
 		9: mk("[-h] [X]", &ref.Decl{Opts: []ref.OptDecl{{Key: "h", Names: []string{"-h", "--help"}, Flag: true}}, Args: []string{"X"}}),
 	}
 }
+
+// treeVersionText is printed verbatim by a version request: per cent signs and verbs in it are text
+const treeVersionText = "9.9.9-verif (100% pure, %s %d%%)"
 
 // treeRun holds what one invocation shows.
 type treeRun struct {
@@ -144,7 +150,7 @@ func buildTree(root *tnode, to treeOpts) (*cli.Cli, *treeRun) {
 	app := cli.App(root.aliases[0], "short "+root.aliases[0])
 	app.ErrorHandling = flowPolicies[to.rootPol]
 	if to.version {
-		app.Version("v version", "9.9.9-verif")
+		app.Version("v version", treeVersionText)
 	}
 	var setup func(n *tnode, cmd *cli.Cmd)
 	setup = func(n *tnode, cmd *cli.Cmd) {
